@@ -18,9 +18,15 @@
      Before get_status they call cmd_base.merge_calc_dep (cmd_base.py 611-626): the values saved by the
      task's calc_dep tasks are merged into the Task object (Task.update_deps), which is what `run`
      does (control.py TaskDispatcher._process_calc_dep_results) with the values of an up-to-date
-     calc_dep task: [run_def].  Only the 'file_dep' part of those values is modelled ([cf] oracle:
-     the list under 'file_dep' in the saved values of a task; [saved_fd]: nothing when the task has
-     no record).  `info` tests status_is_ignore first and prints "status : ignored".
+     calc_dep task: [run_def].  The values a calc task saved can name file_dep, task_dep and further
+     calc_dep of the task that depends on it (Task.update_deps, task.py 379-390); those further calc_dep
+     tasks contribute in turn, to any depth, with sharing and repeats: merge_calc_dep is a fix-point loop,
+     [merge_loop] (fuel; out of fuel = None, excluded by IntrospectP.merged_some), as is the dispatcher's
+     (control.py 457-475 with 614-628).  [cv] oracle: the 'file_dep' / 'calc_dep' / 'task_dep' lists in
+     the saved values of a task; [saved_cv]: nothing when the task has no record.  The 'uptodate' key of
+     such values is not modelled, nor are '*' patterns in a contributed task_dep (wild_dep), nor the
+     implicit task_dep `run` adds when a contributed file_dep is another task's target.
+     `info` tests status_is_ignore first and prints "status : ignored".
      [iver] selects the code version: [icurrent] is HEAD (after a4fdc5e and 33e694f), [ilegacy] the
      code before them (no merge; info never looked at the ignore flag), kept so that the two defects
      stay stated (Properties/C20.v, `..._legacy_refuted`).
@@ -98,9 +104,51 @@ Record iver := { fixCalc : bool; fixIgn : bool }.
 Definition icurrent : iver := {| fixCalc := true; fixIgn := true |}.
 Definition ilegacy : iver := {| fixCalc := false; fixIgn := false |}.
 
-(* dep_manager.get_values(c).get('file_dep', []) : nothing without a record *)
-Definition saved_fd (cf : name -> list file) (d : db) (c : name) : list file :=
-  match d c with Some _ => cf c | None => [] end.
+(* the part of dep_manager.get_values(c) that Task.update_deps looks at (task.py 379-390, _expand_map) *)
+Record cvals := {
+  cv_file_dep : list file;          (* values['file_dep'] *)
+  cv_calc_dep : list name;          (* values['calc_dep'] *)
+  cv_task_dep : list name           (* values['task_dep'] *)
+}.
+Definition no_cvals : cvals := {| cv_file_dep := []; cv_calc_dep := []; cv_task_dep := [] |}.
+(* dep_manager.get_values(c) : {} without a record *)
+Definition saved_cv (cv : name -> cvals) (d : db) (c : name) : cvals :=
+  match d c with Some _ => cv c | None => no_cvals end.
+
+(* the Task object while calc_dep results are merged into it: what get_status looks at ([m_def]), the set
+   task.calc_dep (insertion order; the iteration order of the Python set is not modelled) and the list
+   task.task_dep *)
+Record mtask := { m_def : tdef; m_calc : list name; m_task_dep : list name }.
+(* Task.update_deps(values) (task.py 385-390): _expand_file_dep (set.add), _expand_calc_dep (365-370, set.add),
+   _expand_task_dep (355-362: list.append, duplicates are kept) *)
+Definition update_deps (m : mtask) (x : cvals) : mtask :=
+  {| m_def := add_file_deps (m_def m) (cv_file_dep x);
+     m_calc := fold_left (fun acc c => addset c acc) (cv_calc_dep x) (m_calc m);
+     m_task_dep := m_task_dep m ++ cv_task_dep x |}.
+(* the Task object as the loader leaves it (Task._init_deps 266-283: calc_dep is a set) *)
+Definition minit (t : ltask) : mtask :=
+  {| m_def := l_def t; m_calc := fold_left (fun acc c => addset c acc) (l_calc_dep t) []; m_task_dep := l_task_dep t |}.
+
+(* cmd_base.merge_calc_dep (cmd_base.py 611-626):
+     done = set()
+     while True:
+         todo = [n for n in task.calc_dep if n not in done and n in tasks]
+         if not todo: break
+         for name in todo: done.add(name); task.update_deps(dep_manager.get_values(name))
+   [vals c] = get_values(c).  None = out of fuel. *)
+Definition merge_todo (tb : table) (done : list name) (m : mtask) : list name :=
+  filter (fun n => negb (mem n done) && match lookup tb n with Some _ => true | None => false end) (m_calc m).
+Fixpoint merge_loop (fuel : nat) (tb : table) (vals : name -> cvals) (done : list name) (m : mtask) : option mtask :=
+  match fuel with
+  | O => None
+  | S k => match merge_todo tb done m with
+           | [] => Some m
+           | todo => merge_loop k tb vals (done ++ todo) (fold_left (fun m' c => update_deps m' (vals c)) todo m)
+           end
+  end.
+(* every round but the last marks a task not marked before: one more round than there are tasks is enough *)
+Definition merged (tb : table) (vals : name -> cvals) (t : ltask) : option mtask :=
+  merge_loop (S (length tb)) tb vals [] (minit t).
 
 (* help / dumpdb / tabcompletion *)
 Definition noop_cmd (d : db) : db := d.
@@ -110,7 +158,7 @@ Variable md5 : N -> N.
 Variable v : ver.
 Variable name_ltb : name -> name -> bool.     (* oracle: Python's `<` on the task-name strings (Task.__lt__, task.py 556-558) *)
 Variable iv : iver.
-Variable cf : name -> list file.              (* oracle: the 'file_dep' list in the values a task saved *)
+Variable cv : name -> cvals.                  (* oracle: the dependency lists in the values a task saved *)
 
 (* ---- the decision of Runner.select_task for a task not selected before, with
    node.ignored_deps = node.bad_deps = [] and without --always (runner.py 113-150):
@@ -120,15 +168,22 @@ Definition run_decision (c : ck) (fs : fsys) (d : db) (n : name) (df : tdef) : d
   if status_is_ignore d n then DIgnore
   else decision_of_status (g_status (get_status md5 v c fs d n df false)).
 
-(* the definition `run` hands to get_status: the file_dep lists saved by the task's calc_dep tasks
-   (those that are tasks at all) are merged first; [fd c] = values['file_dep'] of calc task c.
-   cmd_base.merge_calc_dep does the same for list / info *)
-Definition run_def (tb : table) (fd : name -> list file) (t : ltask) : tdef :=
-  fold_left (fun df c => match lookup tb c with Some _ => add_file_deps df (fd c) | None => df end) (l_calc_dep t) (l_def t).
+(* the Task object `run` hands to get_status when every calc_dep task it meets is up-to-date: the values
+   saved by the task's calc_dep tasks (those that are tasks at all) are merged first, then those of the
+   calc_dep tasks named by these values, and so on until nothing is left (TaskDispatcher._add_task,
+   control.py 457-475: "calc_dep may add more deps so need to loop until nothing left", with
+   _process_calc_dep_results 614-628); [vals c] = the values of calc task c.
+   cmd_base.merge_calc_dep does the same for list / info.  The out-of-fuel branch is dead code
+   (IntrospectP.merged_some). *)
+Definition run_task (tb : table) (vals : name -> cvals) (t : ltask) : mtask :=
+  match merged tb vals t with Some m => m | None => minit t end.
+Definition run_def (tb : table) (vals : name -> cvals) (t : ltask) : tdef := m_def (run_task tb vals t).
 
-(* the definition list / info hand to get_status when the DB is [d] *)
+(* the Task object / definition list and info hand to get_status when the DB is [d] *)
+Definition shown_task (tb : table) (d : db) (t : ltask) : mtask :=
+  if fixCalc iv then run_task tb (saved_cv cv d) t else minit t.
 Definition shown_def (tb : table) (d : db) (t : ltask) : tdef :=
-  if fixCalc iv then run_def tb (saved_fd cf d) t else l_def t.
+  if fixCalc iv then run_def tb (saved_cv cv d) t else l_def t.
 
 (* ------------------------------------------------------------------ list *)
 (* List._print_task 86-94: (letter, DB afterwards) *)
@@ -333,6 +388,11 @@ Definition info_cmd (tb : table) (pos : list name) (hide_status : bool) (c : ck)
   | _ => IInvalidCmd
   end.
 
+(* the file_dep / task_dep / calc_dep entries of the attribute listing `info` prints afterwards (cmd_info.py
+   76-86): fields of the Task object, which merge_calc_dep updated iff the status was computed (62-66) *)
+Definition info_attrs (tb : table) (hide_status : bool) (d : db) (t : ltask) : mtask :=
+  if hide_status || (fixIgn iv && status_is_ignore d (l_name t)) then minit t else shown_task tb d t.
+
 (* ------------------------------------------------------------------ the commands as histories:
    the operations of Model/History.v a command amounts to *)
 Definition list_ops (d : db) (status : bool) (pl : list ltask) : list op :=
@@ -383,6 +443,16 @@ Definition enc_ires (b : backend) (tasks : list name) (files : list file) (d0 : 
   | IInvalidCmd => [1]
   | IKeyErr n => [2; zN n]
   | ICrash d => [98; -7] ++ db_z tasks files (persisted b d0 d)
+  end.
+
+(* a Task object's dependency fields: [0] file_dep -1 calc_dep -1 task_dep, each sorted (the two sets have no
+   order; task_dep is compared as a multiset: its order follows the iteration order of a Python set);
+   [95] out of fuel *)
+Definition enc_mtask (m : option mtask) : list Z :=
+  match m with
+  | Some x => [0] ++ map zN (sort_files (file_dep (m_def x))) ++ [-1] ++ map zN (sort_files (m_calc x)) ++ [-1]
+              ++ map zN (sort_files (m_task_dep x))
+  | None => [95]
   end.
 
 (* ================================================================== clean [--dry-run] over clean lists
